@@ -7,6 +7,18 @@ import importlib
 
 CLAIMED = {
  # id: (technique, level_note, design_ref)
+ 'C01': ('ast pairing rule createDimension/setunlimited with a survive-from-source relation (loop key, bulk copy, indexed read), verification of the two dimension-copy primitives, who-may-write rule for the attribute-name list',
+         'Decides: every re-creation of a dimension that survives from a source propagates the unlimited flag; copyDimension/addDimension keep it on all branches; the attribute '
+         'list is written only by life-cycle methods in step with the attribute store. Not decided: shape/dimension agreement after arbitrary operation sequences, completion of '
+         'in-domain operations (run-time shapes).', '4/C01'),
+ 'C04': ('order-preserving dataflow over the file list, typestate (present/absent) walk of the per-variable loop, pairing rules, for/else lint, delegation template',
+         'Decides: inputs reach numpy.ma.concatenate/stack in argument order with the receiver first; stacked length is the sum over the same list; every concatenation keeps masks; '
+         'a variable already in the output is never overwritten by a later file; unlimited flags kept; search loops can terminate; helpers delegate to stack. Not decided: equality '
+         'of data/masks, the split/stack inverse law.', '4/C04'),
+ 'C07': ('ast checks of the netCDF converter: unlimited-branch verification, getattr-chain source of the fill value, sibling agreement of fill-attribute sets, aliasing of class-level defaults (provenance), definition order',
+         'Decides: unlimited source dimensions are created unlimited on every path; masked cells are filled from the destination variable; the three fill-attribute sets agree; '
+         'keywords are copied from class defaults; the converter writes neither its source nor class state; dimensions/definitions precede data. Not decided: attribute/dtype/flavour '
+         'fidelity, bit-identical data (netCDF C library at run time).', '4/C07'),
  'C19': ('line algebra (symbolic count of print statements with loop trip counts as polynomial atoms), writer/reader line-order table comparison, source-agreement and format lints',
          'Decides: declared header-line, variable and comment counts equal the emitted ones for every attribute/variable set; k-th written line is what the reader reads at '
          'line k; declared missing code = fill of masked cells; %.6e from a float64 matrix; reader masks by exact equality. Not decided: seven-digit value equality, '
